@@ -589,6 +589,10 @@ struct Exec {
 			int const n = ev[E_DCTOR] + ev[E_CCTOR] + ev[E_MCTOR] + ev[E_CASSIGN] + ev[E_MASSIGN] + ev[E_CONV] + ev[E_DTOR];
 			if(n != 0) fail("P-element-events", eff.variant + " caused " + std::to_string(n) + " element construction/assignment/destruction event(s); it must not touch elements");
 		}
+		if(eff.expect_no_elem_copies && !threw) {
+			int const n = ev[E_DCTOR] + ev[E_CCTOR] + ev[E_CASSIGN] + ev[E_CONV];
+			if(n != 0) fail("P-element-events", eff.variant + " copied or default-constructed " + std::to_string(n) + " element(s); a move transfers the value without copying elements");
+		}
 		if(eff.expect_base_unchanged && !threw && eff.nt > 0) {
 			void const* after = nullptr;
 			with_dim(eff.tD[0], [&](auto Dc) { after = raw_of(pool<decltype(Dc)::value>().at(eff.ti[0]).data_elements()); });
